@@ -2,7 +2,7 @@
      dispatch          qthread_master's guard before qthread_exec            (src/qthread.c:521-558)
      wake_dest         qt_feb_schedule / qthread_syncvar_schedule            (src/feb.c:173-190, src/syncvar.c:957-972)
      launch_dest       qthread_precond_launch                                (src/feb.c:378-404)
-     fas / fas_nolist  qthread_find_active_shepherd, both branches           (src/shepherds.c:197-283)
+     fas / fas_nolist  qthread_find_active_shepherd, both branches           (src/shepherds.c:197-288)
      migrate_case      qthread_migrate_to's case analysis                    (src/qthread.c:2952-2989) *)
 From Coq Require Import List Bool Arith.
 Import ListNotations.
@@ -39,26 +39,35 @@ Fixpoint skip_inactive (l : list nat) (act : nat -> bool) : list nat :=
   | x :: r => if act x then l else skip_inactive r act
   end.
 
-Fixpoint scan (rest : list nat) (d qlen : nat -> nat) (dist best busy : nat) (coins : list bool) : nat :=
+Fixpoint scan (rest : list nat) (d qlen : nat -> nat) (act : nat -> bool) (dist best busy : nat) (coins : list bool) : nat :=
   match rest with
   | [] => best
   | a :: r =>
     if d a =? dist then
+      if negb (act a) then scan r d qlen act dist best busy coins          (* `continue`: a disabled alternate is skipped *)
+      else
       let lvl := qlen a in
-      if lvl <? busy then scan r d qlen dist a lvl coins
+      if lvl <? busy then scan r d qlen act dist a lvl coins
       else if lvl =? busy then
         match coins with
-        | c :: cs => if c then scan r d qlen dist a lvl cs else scan r d qlen dist best busy cs
-        | [] => scan r d qlen dist best busy []
+        | c :: cs => if c then scan r d qlen act dist a lvl cs else scan r d qlen act dist best busy cs
+        | [] => scan r d qlen act dist best busy []
         end
-      else scan r d qlen dist best busy coins
+      else scan r d qlen act dist best busy coins
     else best
   end.
 
 Definition fas (l : list nat) (d : nat -> nat) (act : nat -> bool) (qlen : nat -> nat) (coins : list bool) : option nat :=
   match skip_inactive l act with
   | [] => None
-  | x :: r => Some (scan r d qlen (d x) x (qlen x) coins)
+  | x :: r => Some (scan r d qlen act (d x) x (qlen x) coins)
+  end.
+
+(* the code before commit c719d4a (kept only for the regression witness in corpus/C07): no activity test on alternates *)
+Definition fas_prefix (l : list nat) (d : nat -> nat) (act : nat -> bool) (qlen : nat -> nat) (coins : list bool) : option nat :=
+  match skip_inactive l act with
+  | [] => None
+  | x :: r => Some (scan r d qlen (fun _ => true) (d x) x (qlen x) coins)
   end.
 
 (* the alternates the second loop looks at *)
